@@ -4,7 +4,7 @@
    the stream / canon instructions ([esi]) and the end-of-run compactification ([fs]) are universally
    quantified parameters restricted by hypotheses of the same shape as the conclusions. *)
 From Coq Require Import Sorted.
-From Aqua Require Import Base Json Air Trace Handler Values Scalars Lens Exec RunExec ExecStreams CallSpec IdsSpec ExecInv IdsProofs.
+From Aqua Require Import Base Json Air Trace Handler Values Scalars Lens Exec RunExec ExecStreams ExecCases CallSpec IdsSpec IdsCases ExecInv IdsProofs.
 Open Scope N_scope.
 Open Scope list_scope.
 
@@ -63,6 +63,10 @@ Proof. exact C06_unknown_partial_holds. Qed.
 Theorem C06_unknown_refuted : ~ C06_unknown_full.
 Proof. exact C06_unknown_not_full. Qed.
 
+(* what C06_fresh_run concludes passes the freshness clauses of the oracle evaluated on the implementation *)
+Theorem C06_oracle_sound : C06_oracle_sound_stmt.
+Proof. exact C06_oracle_sound_holds. Qed.
+
 (* the source lines the model stands on (tools/genx_ids.py) *)
 Theorem C06_source_tie : ids_source_agrees = true /\ ids_overflow_bound_agrees = true.
 Proof. split; [exact ids_source_agrees_holds | exact ids_overflow_bound_agrees_holds]. Qed.
@@ -103,4 +107,5 @@ Print Assumptions C06_routing_exec.
 Print Assumptions C06_unknown.
 Print Assumptions C06_unknown_partial.
 Print Assumptions C06_unknown_refuted.
+Print Assumptions C06_oracle_sound.
 Print Assumptions C06_source_tie.
